@@ -51,6 +51,8 @@ class Content:
         self.info = []          # per position: None or (time, bad, rehash, justsynced)
         self.info_oldest = 0
         self.record_order = []  # sequence of record tags as met (diagnostics)
+        self.disk_order = []    # disk names in the order their per-disk records appear (the tool writes disks in configuration
+                                # order, which need not be the order of the map records)
         self.varint_spans = []  # (start, end, bits) of every packed number in the decoded bytes
         self.inode_spans = []   # (start, end, disk name, inode) of every file record's inode field in the decoded bytes
 
@@ -219,6 +221,8 @@ def decode(data, strict=True):
             if mi >= len(c.maps):
                 raise ContentError("map index")
             disk = c.disk_of_map(mi)
+            if disk.name not in c.disk_order:
+                c.disk_order.append(disk.name)
             size = r.b64()
             if c.block_size == 0:
                 raise ContentError("no block size")
@@ -257,6 +261,8 @@ def decode(data, strict=True):
             to = r.bs()
             if not sub or (t == "a" and not to):
                 raise ContentError("null link")
+            if c.disk_of_map(mi).name not in c.disk_order:
+                c.disk_order.append(c.disk_of_map(mi).name)
             c.disk_of_map(mi).links.append((t, sub, to))
         elif t == "r":
             mi = r.b32()
@@ -265,12 +271,16 @@ def decode(data, strict=True):
             sub = r.bs()
             if not sub:
                 raise ContentError("null dir")
+            if c.disk_of_map(mi).name not in c.disk_order:
+                c.disk_order.append(c.disk_of_map(mi).name)
             c.disk_of_map(mi).dirs.append(sub)
         elif t == "h":
             mi = r.b32()
             if mi >= len(c.maps):
                 raise ContentError("map index")
             disk = c.disk_of_map(mi)
+            if disk.name not in c.disk_order:
+                c.disk_order.append(disk.name)
             disk.has_hole_record = True
             pos = 0
             while pos < c.blockmax:
@@ -371,7 +381,8 @@ def encode(c, now=None):
             uuid = p["legacy_uuid"] if p["splits"] is None else p["splits"][0][1]
             o += b"P" + _b(l) + _b(p["total"]) + _b(p["free"]) + _bs(uuid)
     mapidx = {m["name"]: i for i, m in enumerate(c.maps)}
-    order = getattr(c, "disk_order", None) or list(c.disks)
+    order = [n for n in (getattr(c, "disk_order", None) or []) if n in c.disks]
+    order += [n for n in c.disks if n not in order]
     for name in order:
         d = c.disks[name]
         mi = _b(mapidx[name])
